@@ -99,8 +99,11 @@ theorem sdrToSdr_is_aux {s d r : ℝ} (hs0 : 0 ≤ s) (hs1 : s < 2 * π) (hd0 : 
     (hr0 : -π < r) (hr1 : r ≤ π) :
     sdrToSdr s d r = fpToSdr (sdrVec1 s d r) (sdrVec2 s d) := by
   have h := fpToSdr_of_sdr hs0 hs1 hd0 hd1 hr0 hr1
-  simp only [sdrToSdr, sdrToFp_eq, h, sub_self, flt_abs, abs_zero, flt_ltb, flt_c, Nat.cast_one,
-    zero_lt_one, decide_true, if_true]
+  obtain ⟨h1, -, h3⟩ := sdrVecs_unit_perp s d r
+  -- the candidate that is the input plane has `normalDot = 1`, the auxiliary plane `0`
+  have e1 : normalDot (fpToSdr (sdrVec1 s d r) (sdrVec2 s d)).1 (fpToSdr (sdrVec1 s d r) (sdrVec2 s d)).2.1 s d
+      = 0 := by rw [normalDot_fpToSdr h1, h3, abs_zero]
+  simp only [sdrToSdr, sdrToFp_eq, h, e1, normalDot_self, flt_ltb, zero_lt_one, decide_true, if_true]
 
 /-- axes → angles returns a nodal plane of the same source (the auxiliary one) -/
 theorem tnpToSdr_of_sdr (s d r : ℝ) :
